@@ -73,16 +73,56 @@ impl Stream for SocketStream {
                 let actual = socket.verif_inflight().3;
                 if ns.parse::<u64>().ok() == Some(actual) { "ok".into() } else { format!("timeout-is {actual}") }
             }
-            ["recv", from, tid, kind] => {
+            ["recv", from, tid, kind] | ["recvraw", from, tid, kind] => {
+                let raw = op.starts_with("recvraw");
                 let from = parse_addr(from);
-                let tid: u32 = tid.parse().expect("tid");
                 let timeout = socket.verif_inflight().3;
-                let mt = match *kind {
-                    "ok" => MessageType::Response(ResponseSpecific::Ping(PingResponseArguments { responder_id: Id::from_bytes([9; 20]).expect("id") })),
-                    "err" => MessageType::Error(ErrorSpecific { code: 201, description: "e".into() }),
-                    _ => MessageType::Request(dht::RequestSpecific { requester_id: Id::from_bytes([9; 20]).expect("id"), request_type: RequestTypeSpecific::Ping }),
+                // `recvraw` carries the bytes of the `t` field: only 2 and 4 bytes are a transaction id
+                let (tid_opt, bytes): (Option<u32>, Vec<u8>) = if raw {
+                    let t = unhex(tid);
+                    let tid_opt = match t.len() {
+                        4 => Some(u32::from_be_bytes([t[0], t[1], t[2], t[3]])),
+                        2 => Some(u16::from_be_bytes([t[0], t[1]]) as u32),
+                        _ => None,
+                    };
+                    let mut b: Vec<u8> = vec![];
+                    match *kind {
+                        "ok" => b.extend_from_slice(b"d1:rd2:id20:\x09\x09\x09\x09\x09\x09\x09\x09\x09\x09\x09\x09\x09\x09\x09\x09\x09\x09\x09\x09e"),
+                        _ => b.extend_from_slice(b"d1:eli201e1:ee"),
+                    }
+                    b.extend_from_slice(format!("1:t{}:", t.len()).as_bytes());
+                    b.extend_from_slice(&t);
+                    b.extend_from_slice(if *kind == "ok" { b"1:y1:re" } else { b"1:y1:ee" });
+                    (tid_opt, b)
+                } else {
+                    let tid: u32 = tid.parse().expect("tid");
+                    let mt = match *kind {
+                        "ok" => MessageType::Response(ResponseSpecific::Ping(PingResponseArguments { responder_id: Id::from_bytes([9; 20]).expect("id") })),
+                        "err" => MessageType::Error(ErrorSpecific { code: 201, description: "e".into() }),
+                        _ => MessageType::Request(dht::RequestSpecific { requester_id: Id::from_bytes([9; 20]).expect("id"), request_type: RequestTypeSpecific::Ping }),
+                    };
+                    (Some(tid), Msg::new(tid, None, None, mt, false).to_bytes().expect("enc"))
                 };
-                let bytes = Msg::new(tid, None, None, mt, false).to_bytes().expect("enc");
+                if tid_opt.is_none() {
+                    verif::deliver(self.me, bytes, from);
+                    let r = guarded(std::panic::AssertUnwindSafe(|| socket.verif_recv()));
+                    return match r {
+                        Err(m) => {
+                            out.violation("C05", "socket-panic", format!("KrpcSocket::recv_from panicked: {m}"));
+                            "panic".into()
+                        }
+                        Ok(Some(_)) => {
+                            out.violation("C09", "accepted-unexpected", format!("a message whose `t` field is {} bytes long ({tid}) was accepted: it is not the transaction id of any request (ids are sent on 4 bytes)", tid.len() / 2));
+                            out.violation("C10", "tid-length-accepted", format!("a `t` field of {} bytes was decoded as a transaction id", tid.len() / 2));
+                            "accepted".into()
+                        }
+                        Ok(None) => {
+                            out.count("rejected-malformed-tid");
+                            "dropped".into()
+                        }
+                    };
+                }
+                let tid = tid_opt.expect("tid");
                 verif::deliver(self.me, bytes, from);
                 let r = guarded(std::panic::AssertUnwindSafe(|| socket.verif_recv()));
                 let got = match r {
@@ -191,6 +231,25 @@ pub fn run(out: &mut Out, seed: u64, thorough: bool, replay: Option<&str>) {
                     // genuine reply (possibly a duplicate of an earlier one)
                     let (t, a) = *rng.pick(&tids);
                     let from = if a.ip().is_unspecified() { SocketAddrV4::new(Ipv4Addr::new(127, 0, 0, 1), a.port()) } else { a };
+                    if rng.chance(1, 3) {
+                        // from the right address, but the `t` bytes are only an alias of the request's four:
+                        // prefixed, or with leading zero bytes dropped, or empty
+                        let be = t.to_be_bytes();
+                        let alias: Vec<u8> = match rng.below(5) {
+                            0 => [&[0xde, 0xad][..], &be[..]].concat(),
+                            1 => [&[0x00][..], &be[..]].concat(),
+                            2 => be[1..].to_vec(),
+                            3 => be[3..].to_vec(),
+                            _ => vec![],
+                        };
+                        out.run(&mut s, format!("recvraw {} {} {}", addr_s(&from), if alias.is_empty() { "-".to_string() } else { hex(&alias) }, rng.pick(&["ok", "err"])));
+                    }
+                    if rng.chance(1, 4) {
+                        // the request's id on the two-byte form some implementations use
+                        if t < 65536 {
+                            out.run(&mut s, format!("recvraw {} {} {}", addr_s(&from), hex(&(t as u16).to_be_bytes()), rng.pick(&["ok", "err"])));
+                        }
+                    }
                     out.run(&mut s, format!("recv {} {} {}", addr_s(&from), t, rng.pick(&["ok", "err"])));
                 }
                 5..=6 => {
